@@ -47,7 +47,18 @@ def _task_elems(call, flow):
     """tasks.append([X, Y] + args) -> (X, Y, rest) resolved; None if other shape."""
     if len(call.args) != 1:
         return None
-    a = flow.resolve(call.args[0])
+    return _elems_of(flow.resolve(call.args[0]))
+
+
+def _elems_of(a):
+    if isinstance(a, ast.IfExp):
+        # the whole task chosen by a condition (a helper with two returns): same as choosing element-wise
+        l, r = _elems_of(a.body), _elems_of(a.orelse)
+        if l is None or r is None:
+            return None
+        X = ast.IfExp(test=a.test, body=l[0], orelse=r[0])
+        Y = l[1] if canon(l[1]) == canon(r[1]) else ast.IfExp(test=a.test, body=l[1], orelse=r[1])
+        return X, Y, l[2]
     rest = None
     if isinstance(a, ast.BinOp) and isinstance(a.op, ast.Add):
         a, rest = a.left, a.right
@@ -345,7 +356,19 @@ def check_run_worker(ctx):
             else:
                 why = "loop body over pool.map is not a plain append"
         elif isinstance(p, ast.Call) and A.call_name(p) == "list":
-            ok = True
+            # results = list(pool.map(...)): returned as it is (not re-ordered, filtered or extended on the way)
+            rv = [flow.resolve(s.value, at=s) for _, s in flow.returns if s.value is not None]
+            pr = flow.resolve(p, at=A.enclosing_stmt(p))
+            ok = bool(rv) and all(canon(x) == canon(pr) for x in rv)
+            why = "returns %s, not the list of pool.map results" % [A.unparse(x)[:50] for x in rv]
+            st_ = A.enclosing_stmt(p)
+            if ok and isinstance(st_, ast.Assign) and isinstance(st_.targets[0], ast.Name):
+                lst = st_.targets[0].id
+                muts = [x for x in A.calls_in(fn) if isinstance(x.func, ast.Attribute) and x.func.attr in ("append", "extend", "insert", "sort", "reverse", "pop", "remove") and canon(x.func.value) == lst]
+                muts += [x for x in A.walk_local(fn) if isinstance(x, ast.AugAssign) and canon(x.target) == lst]
+                if muts:
+                    ok = False
+                    why = "`%s` is changed after it was filled from pool.map (`%s`)" % (lst, A.unparse(muts[0])[:50])
         elif isinstance(p, ast.Return):
             ok = True
         t_res = flow.resolve(c.args[1], at=A.enclosing_stmt(c)) if len(c.args) >= 2 else None
